@@ -1,4 +1,6 @@
 """C18 — allocation failure is reported, leak-free and crash-free; destroy releases all."""
+import os
+
 import vcommon as V
 
 ID = "C18"
@@ -125,6 +127,9 @@ def _mk(name, ks, tag):
 
 def corpus_cases(ctx):
     # the fault positions at which the unchanged tree was found to violate the property
+    # (C18_NO_CORPUS=1: leave them out, to see the enumeration find them by itself)
+    if os.environ.get("C18_NO_CORPUS"):
+        return []
     return [_mk("channel_init_mutex", [1], "corpus-k1"), _mk("evloop_new_epoll", [2], "corpus-k2"),
             _mk("avl_tree_init_pool", [2], "corpus-k2"), _mk("queue_init_pool", [1], "corpus-k1"),
             _mk("hash_table_init_pool", [5], "corpus-k5"), _mk("async_logger_log", [2], "corpus-k2")]
